@@ -33,6 +33,8 @@ def species_name(draw, fmt, elements):
     for _ in range(8):
         if draw(st.integers(0, 7)) == 0:
             return ELECTRON[fmt]
+        if fmt in ("krome", "uclchem", "naunet") and draw(st.integers(0, 9)) == 0:
+            return "#" + draw(st.sampled_from(["CO", "H2O", "H2", "CH4", "H"]))  # ice species carry the '#' prefix
         sp = draw(M.gas_molecule(elements, max_tokens=3, allow_label=(fmt in ("kida", "naunet")), charges=(0, 0, 0, 1, -1, 2)))
         n = M.spell(sp)
         if len(n) <= lim:
@@ -114,8 +116,8 @@ def line_reaction(draw, fmt, elements=None, extra_markers=()):
     return lr
 
 
-KROME_TMIN = [("NONE", -1.0), ("N", -1.0), ("10", 10.0), ("1.d2", 100.0), (">1d3", 1000.0), (".GE.5.5d3", 5500.0), ("2.73", 2.73), (".GT.30", 30.0), ("", -1.0)]
-KROME_TMAX = [("NONE", -1.0), ("N", -1.0), ("300", 300.0), ("1.d4", 10000.0), ("<1d3", 1000.0), (".LE.5.5d3", 5500.0), (".LT.8000", 8000.0), ("1e8", 1e8), ("", -1.0)]
+KROME_TMIN = [("NONE", -1.0), ("N", -1.0), ("10", 10.0), ("1.d2", 100.0), (">1d3", 1000.0), (".GE.5.5d3", 5500.0), ("2.73", 2.73), (".GT.30", 30.0), ("", -1.0), (".5d2", 50.0), (">.12d3", 120.0)]
+KROME_TMAX = [("NONE", -1.0), ("N", -1.0), ("300", 300.0), ("1.d4", 10000.0), ("<1d3", 1000.0), (".LE.5.5d3", 5500.0), (".LT.8000", 8000.0), ("1e8", 1e8), ("", -1.0), (".8d4", 8000.0), ("<.55e4", 5500.0)]
 KROME_RATES = ["1.0d-10", "4.67e-10*(T32)**(-5.000e-01)*exp(-3.040e+04*invT)", "3.5d-12*exp(-1.d0*invT)", "1.2d-17*sqrt(Tgas)", "auto"]
 
 
@@ -159,6 +161,8 @@ def krome_file(draw, nmax=12):
         nr, np_ = order.count("r"), order.count("p")
         r = [draw(species_name("krome", elements)) for _ in range(draw(st.integers(1, nr)))]
         p = [draw(species_name("krome", elements)) for _ in range(draw(st.integers(1, np_)))]
+        if "idx" not in order and r[0].startswith("#"):
+            r[0] = r[0][1:]  # a line that *starts* with '#' is a comment by the format's own rule
         tmin = draw(st.sampled_from(KROME_TMIN)) if "tmin" in order else ("", -1.0)
         tmax = draw(st.sampled_from(KROME_TMAX)) if "tmax" in order else ("", -1.0)
         lr = {"fmt": "krome", "r": r, "p": p, "markers_r": [], "a": 0.0, "b": 0.0, "c": 0.0, "tmin": tmin[1], "tmax": tmax[1],
